@@ -594,7 +594,14 @@ func (s *EtcdStore) deleteConsumerOffsets(ctx context.Context, topic string) err
 	s.recordEtcdResult(nil)
 	for _, kv := range resp.Kvs {
 		key := string(kv.Key)
-		if strings.Contains(key, fmt.Sprintf("/offsets/%s/", topic)) {
+		// Keys end in /offsets/<topic>/<partition>. Match that tail exactly: a
+		// substring test also hits other topics' offsets of a group whose name
+		// happens to contain "/offsets/<topic>/".
+		dir := key
+		if i := strings.LastIndex(key, "/"); i >= 0 {
+			dir = key[:i]
+		}
+		if strings.HasSuffix(dir, "/offsets/"+topic) {
 			delCtx, cancel := context.WithTimeout(ctx, 3*time.Second)
 			_, delErr := s.client.Delete(delCtx, key)
 			cancel()
